@@ -326,11 +326,17 @@ def check(run):
                        "Delete*, UpdateEndpoints* (OSS and Plus), Enable/DisableReloads, UpdateConfig, ReloadForBatchUpdates, Update{VirtualServers,TransportServers}, "
                        "BatchDelete*) over 10 named resources with repeated and changed content, reload failures / API failures injected at random call indices, plus a fixed "
                        "corpus (witnesses of the refutation theorems, a failure at every call of a short history, Plus API fallback).  ctl: histories of 3-30 real "
-                       "lbc.sync calls (ingress, virtualserver, transportserver, endpointslice, configmap tasks; add/update/delete; queue length chosen per task). "
+                       "lbc.sync calls (ingress incl. one with a replica-scaled rate limit, virtualserver, transportserver, endpointslice incl. the controller's own "
+                       "Service, configmap, MGMT configmap (Plus), secret tasks for every special-Secret role: default server, wildcard, MGMT licence / client "
+                       "certificate / trusted CA, with -ssl-dynamic-reload on and off; add/update/delete/re-delivery; queue length chosen per task; two-batch "
+                       "histories). Secret files are classified by the recording Manager at write time: a change NGINX sees only after a reload iff a "
+                       "configuration file on disk names the file literally. "
                        "A case is distinct by its full input; a case is non-trivial when the model run contains a change, a Reload or an API call.")
     run.cov["trusted_base"] = TRUSTED
     run.assumptions += [
-        "files NGINX reads = main config, conf.d, stream-conf.d (and the TLS passthrough map as a write event); secrets, App Protect files, DH params, SPIFFE certs are outside the model",
+        "files NGINX reads = main config, conf.d, stream-conf.d, and the special Secret files a configuration file names literally; regular (resource-referenced) Secrets, "
+        "App Protect files, DH params, SPIFFE certs, policies with rateLimit.scale on VirtualServers are not in the operation alphabet",
+        "the model has one has-something-to-report-on flag per task: histories with the trusted-CA Secret keep the NGINX ConfigMap so that both reloads of its handler are reportable",
         "template execution cannot fail in the generated cases (the only injected faults are Reload and Plus API results)",
         "endpoints operations are called with the stored spec (only endpoints differ) and every resource has at least one upstream to push",
     ]
